@@ -17,5 +17,8 @@ ReadsFour == {"to_pandas", "iter", "head", "count"}
 ReadsAll == {"to_pandas", "iter", "head", "count", "filelike"}
 ColsAll == {<<>>, <<"x">>, <<"s", "x">>, <<"k">>, <<"x", "k", "s">>, <<"t", "n">>, <<"f", "t", "x">>}
 ColsFew == {<<>>, <<"s", "x">>, <<"t", "n">>}
+IdxDefault == {"default"}
+IdxAll == {"default", "false", "x", "t"}
+ColsIdx == {<<>>, <<"s", "x">>, <<"f", "t", "x">>}
 Export == pc = "done" => PrintT(ToJson([prog |-> prog, outcome |-> outcome, src |-> src]))
 =============================================================================
